@@ -30,7 +30,13 @@ TRUSTED = ["harness/snapshot.py (structural snapshot through public accessors) a
 REQUIRED_BUCKETS = ["role:static", "role:dynamic", "role:environment", "role:phantom", "pred:trajectory", "pred:set",
                     "shape:rect", "shape:circ", "shape:poly", "shape:group", "state:interval", "state:region", "state:custom",
                     "init:no-acceleration", "sign:virtual", "signal:horn", "goal:lanelets", "goal:shape", "light:inactive",
-                    "stopline", "intersection", "precision:1", "precision:12", "xsd-valid"]
+                    "stopline", "intersection", "precision:1", "precision:12", "xsd-valid",
+                    # every member of these XSD enumerations was used at least once
+                    "enum-full:lineMarking", "enum-full:laneletType", "enum-full:vehicleType", "enum-full:obstacleTypeStatic",
+                    "enum-full:obstacleTypeDynamic", "enum-full:obstacleTypeEnvironment", "enum-full:trafficLightColor",
+                    "enum-full:direction", "enum-full:tag", "enum-full:sign:ZAM", "enum-full:sign:DEU", "enum-full:sign:USA",
+                    "enum-full:sign:ESP", "enum-full:custom-attr", "enum-full:weather", "enum-full:underground",
+                    "enum-full:state-class", "enum-full:virtual"]
 WORKERS = {"quick": 1, "thorough": 8}
 
 # keys of the snapshot that the XML format does not carry (derived by the reader / not part of the property)
@@ -79,7 +85,7 @@ def expected(snap):
 # ------------------------------------------------------------------------------------------------ one case
 
 def write_read(spec, path, d):
-    """build -> write at precision d -> read. Returns (snapshot of original, snapshot read back) or raises."""
+    """build -> write at precision d -> read. Returns (snapshot of original, snapshot read back, objects) or raises."""
     from commonroad.common.file_reader import CommonRoadFileReader
     from commonroad.common.file_writer import CommonRoadFileWriter, OverwriteExistingFile
     sc, pps = G.build(spec)
@@ -87,9 +93,8 @@ def write_read(spec, path, d):
     if os.path.exists(path):
         os.remove(path)
     CommonRoadFileWriter(sc, pps, decimal_precision=d).write_to_file(path, OverwriteExistingFile.ALWAYS)
-    after_write = S.snapshot(sc, pps)
     sc2, pps2 = CommonRoadFileReader(path).open()
-    return before, after_write, S.snapshot(sc2, pps2), (sc, pps, sc2, pps2)
+    return before, S.snapshot(sc2, pps2), (sc, pps, sc2, pps2)
 
 
 def _class_of(path, kind):
@@ -160,7 +165,7 @@ def judge(ctx, spec, d, path, model=True):
     if r[0] == "err":
         ctx.fail(f"C01/write-read/raises-{r[1]}", f"write->read raised {r[2]} at precision {d}", case)
         return None
-    before, after_write, back, objs = r[1]
+    before, back, objs = r[1]
     if model:
         correspond(ctx, case, spec, d, path, *objs)
     # XSD validity of the written file measures the generator (schema-expressible by construction)
@@ -434,6 +439,8 @@ def run(ctx):
             spec["precision"] = d
             tags_of(ctx, spec, d)
             judge(ctx, spec, d, path)
+    for name in gen.fully_visited():
+        ctx.tag("enum-full:" + name)
 
 
 search = run
